@@ -69,3 +69,16 @@ package server
 //@   ensures result0 == bgp.BGP_FSM_OPENCONFIRM || result0 == bgp.BGP_FSM_IDLE
 //@   ensures result0 == bgp.BGP_FSM_OPENCONFIRM ==> result2 == nil && typeOf(old(fmsg.MsgData)) == (*bgp.BGPMessage)
 //@   ensures result0 == bgp.BGP_FSM_IDLE ==> result2 != nil
+
+// =============================================================================================
+// C17 — RT Constraint: a VPN route is advertised iff the peer has a membership for one of its targets
+// =============================================================================================
+//@ props C17
+// from C17: "advertised iff the peer currently has an accepted membership for one of the route's targets
+// (or the default membership)"
+//@ func (*peer).interestedIn
+//@   requires peer != nil && path != nil
+//@   claims at-return step
+//@   at-return requires ret0 ==> peer.rtmHandler.HasDefaultRouteTarget() || peer.rtmHandler.HasRouteTarget(ext)
+//@   at-return requires !ret0 ==> !peer.rtmHandler.HasDefaultRouteTarget()
+//@   loop 0 step !peer.rtmHandler.HasRouteTarget(ext)
